@@ -13,7 +13,9 @@ old witnesses are regression `example`s.  `ClaimsCover` remains: it is a real pr
 collector only through the names it claimed), not a defect.
 -/
 import PromVerif.Lemmas.RegistryCollect
+import PromVerif.Lemmas.RegistryMetrics
 import PromVerif.Props.C06
+import PromVerif.Props.C17
 
 namespace PromVerif.Props.C07
 open PromVerif.Py PromVerif.Model.Registry PromVerif.Spec.Registry
@@ -141,6 +143,115 @@ theorem restricted_calls_only_claimants {s : State} (hi : Inv s) (names : List N
     rw [← mem_getNames_iff, ← hi.stored c ns h2]
     exact h5
   · exact Or.inr h
+
+/-! ### the built-in metric classes satisfy `ClaimsCover` -/
+
+section Builtin
+variable {V : Type} [PromVerif.Model.Metrics.Val V]
+
+/-- **Every built-in metric object covers its claims.**  For every metric object `m` of the C01 model — Counter, Gauge,
+Summary, Histogram (any bounds), Info, Enum (any states); any label schema, any state, hence in particular every
+state reachable by any history — seen as a registry collector (`describe()` = its family without samples, `collect()`
+= the family with the samples `_samples` / `_multi_samples` / `_child_samples` build, plus one `<name>_created` per
+child when created series are enabled, `created`), every sample name it emits (`_total`, `_created`, `_count`, `_sum`,
+`_bucket`, `_info`, the bare name for gauges and enums) is among the names `_get_names` records for it under the
+extracted suffix table, whatever the `auto_describe` flag, help text and unit. -/
+theorem builtin_claims_cover (ad : Bool) (id : Nat) (help unit : List Char) (created : Bool)
+    (m : PromVerif.Model.Metrics.Metric V) :
+    SamplesCovered ad (metricCollector id help unit created m) :=
+  metricCollector_covered ad id help unit created m
+
+/-- …in particular for every metric object reachable by a C01 history -/
+theorem builtin_claims_cover_reachable (ad : Bool) (id : Nat) (help unit : List Char) (created : Bool)
+    (ds : List (PromVerif.Model.Metrics.Decl V)) (mops : List (PromVerif.Model.Metrics.Op V))
+    (m : PromVerif.Model.Metrics.Metric V)
+    (_hm : m ∈ (PromVerif.Model.Metrics.run (PromVerif.Model.Metrics.Reg.fresh ds) mops).1) :
+    SamplesCovered ad (metricCollector id help unit created m) :=
+  metricCollector_covered ad id help unit created m
+
+end Builtin
+
+private instance exVal : PromVerif.Model.Metrics.Val Nat :=
+  { zero := 0, one := 1, add := Nat.add, neg := id, le := fun a b => decide (a ≤ b), lt := fun a b => decide (a < b),
+    ofNat := id, inf := 1000000, beq := fun a b => decide (a = b) }
+
+/-- `Histogram('h', …, ['l'], buckets=(1, +Inf))` with one child -/
+private def exHist : PromVerif.Model.Metrics.Metric Nat :=
+  { decl := { name := ['h'], kind := .histogram [(1, ['1', '.', '0']), (1000000, ['i', 'n', 'f'])], labelnames := [['l']] }
+    single := none
+    children := [([['a']], PromVerif.Model.Metrics.metricInit (.histogram [(1, ['1', '.', '0']), (1000000, ['i', 'n', 'f'])]))] }
+
+-- the bridge is not vacuous: a labelled histogram child emits two buckets, count, sum and created, all claimed
+example :
+    emittedNames true exHist = [['h', '_', 'b', 'u', 'c', 'k', 'e', 't'], ['h', '_', 'b', 'u', 'c', 'k', 'e', 't'],
+      ['h', '_', 'c', 'o', 'u', 'n', 't'], ['h', '_', 's', 'u', 'm'], ['h', '_', 'c', 'r', 'e', 'a', 't', 'e', 'd']] ∧
+    getNames false (metricCollector 0 [] [] true exHist) = [['h'], ['h', '_', 'b', 'u', 'c', 'k', 'e', 't'],
+      ['h', '_', 's', 'u', 'm'], ['h', '_', 'c', 'o', 'u', 'n', 't'], ['h', '_', 'c', 'r', 'e', 'a', 't', 'e', 'd']] := by
+  decide
+
+
+/-- **For registries of covered collectors the filter theorem is unconditional**: after any history all of whose
+`register` calls are for collectors whose sample names are among their claimed names — every built-in metric object is
+one (`builtin_claims_cover`) — the restricted collection is the per-sample-name filter of the full collection. -/
+theorem restricted_is_filter_covered (ad : Bool) (ti : Option Labels) (ops : List Op) (names : List Name)
+    (h : ∀ c, Op.register c ∈ ops → SamplesCovered ad c) :
+    (restrictedCollect names (run (init ad ti) ops).1).families.Perm
+      ((collect (run (init ad ti) ops).1).families.filterMap (restrictTo names)) := by
+  have hi := PromVerif.Props.C06.inv_run ad ti ops
+  refine restricted_is_filter hi (claimsCover_of_covered hi ?_) names
+  intro c ns hm
+  rw [run_autoDescribe, init_autoDescribe]
+  exact h c (registered_was_registered ad ti ops hm)
+
+/-! ### the HTTP `name[]` parameter -/
+
+section Http
+open PromVerif.Model.Http (Env Fmt PyKey Params bakeOutput chooseEncoder)
+variable {B : Type}
+
+/-- the `str` values of `params['name[]']` (a `bytes` value never equals a sample name, which is a `str`) -/
+def keyNames (ks : List PyKey) : List Name :=
+  ks.filterMap fun k => match k with
+    | .str s => some s
+    | .bytes _ => none
+
+/-- C17's opaque exposition parameter instantiated with this registry model: `expo f none` renders `collect()`,
+`expo f (some names)` renders `restricted_registry(names).collect()`; `render` (the two encoders) stays opaque -/
+def registryEnv (render : Fmt → List Family → B) (s : State) (gzip : B → B) (empty : B)
+    (errBody : PromVerif.Model.Http.Str → PromVerif.Model.Http.Str → B) : Env B :=
+  { expo := fun f r => match r with
+      | none => render f (collect s).families
+      | some ks => render f (restrictedCollect (keyNames ks) s).families
+    gzip := gzip, empty := empty, errBody := errBody }
+
+/-- **The HTTP `name[]` parameter is the restricted registry.**  With C17's exposition parameter instantiated as
+"encode the families of this registry model" (a one-line instantiation of `Env.expo`; nothing in `Model/Http.lean` has to
+change), the body `_bake_output` serves for a request whose query has `name[]` values `ks` is — gzip-compressed iff
+the response says so — the chosen encoder applied to exactly `restrictedCollect (keyNames ks) s`; without `name[]` it
+is the encoder applied to the full collection; and under the C06 invariant and `ClaimsCover` the served families are,
+as a multiset, the per-sample-name filter of the full collection with name, type, help and unit unchanged. -/
+theorem http_name_param (render : Fmt → List Family → B) (s : State) (gzip : B → B) (empty : B)
+    (errBody : PromVerif.Model.Http.Str → PromVerif.Model.Http.Str → B)
+    (accept ae : Option PromVerif.Model.Http.Str) (params : Params) (d : Bool) :
+    (∀ ks, params.lookup (PyKey.str PromVerif.Generated.Http.nameKey) = some ks →
+      (bakeOutput (registryEnv render s gzip empty errBody) accept ae params d).body
+        = (if PromVerif.Spec.Http.contentEncoding ∈
+              (bakeOutput (registryEnv render s gzip empty errBody) accept ae params d).headers
+           then gzip (render (chooseEncoder accept).1 (restrictedCollect (keyNames ks) s).families)
+           else render (chooseEncoder accept).1 (restrictedCollect (keyNames ks) s).families) ∧
+      (Inv s → ClaimsCover s →
+        (restrictedCollect (keyNames ks) s).families.Perm
+          ((collect s).families.filterMap (restrictTo (keyNames ks))))) ∧
+    (params.lookup (PyKey.str PromVerif.Generated.Http.nameKey) = none →
+      (bakeOutput (registryEnv render s gzip empty errBody) accept ae params d).body
+        = (if PromVerif.Spec.Http.contentEncoding ∈
+              (bakeOutput (registryEnv render s gzip empty errBody) accept ae params d).headers
+           then gzip (render (chooseEncoder accept).1 (collect s).families)
+           else render (chooseEncoder accept).1 (collect s).families)) := by
+  have h := PromVerif.Props.C17.body_is_restricted_exposition (registryEnv render s gzip empty errBody) accept ae params d
+  refine ⟨fun ks hk => ⟨h.1 ks hk, fun hi hc => restricted_is_filter hi hc _⟩, fun hn => h.2.1 hn⟩
+
+end Http
 
 /-! ### non-vacuity and regressions -/
 
